@@ -218,6 +218,8 @@ def run_case(case, ctx):
         if width > 1:
             # a tuple of re-iterable columns: every iteration of one BatcherIter starts afresh, too
             bi = G.BatcherIter(tuple(cols), bs)
+            if n % 2:
+                guard(ctx, "BatcherIter", lambda: common_take(bi, 1))
             one = guard(ctx, "BatcherIter", lambda: common_take(bi, nb + 2))
             two = guard(ctx, "BatcherIter", lambda: common_take(bi, nb + 2))
             expt = [tuple(list(c) for c in b) for b in exp_batches]
@@ -226,6 +228,8 @@ def run_case(case, ctx):
         if width == 1 and typ != "gen":
             # over a re-iterable input every iteration of one BatcherIter starts afresh
             bi = G.BatcherIter(cols[0], bs)
+            if n % 2:
+                guard(ctx, "BatcherIter", lambda: common_take(bi, 1))     # an abandoned iteration (a `break`) comes first
             one = guard(ctx, "BatcherIter", lambda: common_take(bi, nb + 2))
             two = guard(ctx, "BatcherIter", lambda: common_take(bi, nb + 2))
             expl = [list(b[0]) for b in exp_batches]
